@@ -3,6 +3,7 @@ package props
 import (
 	"encoding/json"
 	"fmt"
+	"github.com/jhalter/mobius/internal/mobius"
 	"os"
 	"path/filepath"
 	"sort"
@@ -22,7 +23,7 @@ func init() {
 		Level: "exploration",
 		Rule: "bounded-exhaustive configuration enumeration on the real connection loop: each request kind (one per transaction type and target kind that selects a different privilege) x requester bitmap in " +
 			"{empty, all, each single bit, each all-but-one, and all four combinations for two-privilege effects}; fresh world per run with an observer client; distinct = distinct (kind, bitmap, observation)",
-		Assumptions: []string{"privilege table in props/c05.go + ref/priv.go written from the protocol's description of each effect", "bitmaps differing from empty/all in more than two bits are not enumerated"},
+		Assumptions:    []string{"privilege table in props/c05.go + ref/priv.go written from the protocol's description of each effect", "bitmaps differing from empty/all in more than two bits are not enumerated"},
 		Run:            runC05,
 		Replay:         replayC05,
 		MinOutcomes:    50,
@@ -138,6 +139,19 @@ func init() {
 	c05Never["move-file-onto-existing-file"] = func(wd *world.World, bits [8]byte) string {
 		if b, _ := os.ReadFile(filepath.Join(wd.FileRoot, "other", "inner.txt")); string(b) != "other-inner" && !ref.BitSet(bits, ref.PDeleteFile) {
 			return fmt.Sprintf("other/inner.txt now holds %q: the file that had the name is gone although the requester may not delete files", b)
+		}
+		return ""
+	}
+	c05Never["batch-rename-onto-existing-account-file"] = func(wd *world.World, bits [8]byte) string {
+		if ref.BitSet(bits, ref.PDeleteUser) {
+			return ""
+		}
+		m2, err := mobius.NewYAMLAccountManager(wd.UsersDir)
+		if err != nil {
+			return fmt.Sprintf("the accounts directory does not load any more: %v", err)
+		}
+		if a := m2.Get("guest"); a == nil || a.Name != "Guest" {
+			return fmt.Sprintf("a server restarted from the files has 'guest' = %+v: the account's file was replaced although the requester may not delete accounts", a)
 		}
 		return ""
 	}
@@ -340,6 +354,9 @@ var c05Kinds = []c05Kind{
 	}, ""},
 	{"move-file-onto-existing-file", []int{ref.PMoveFile}, func(x c05Ctx) ref.Tx {
 		return ref.Tx{Type: ref.TMoveFile, Fields: []ref.Fld{ref.FS(ref.FFileName, "inner.txt"), ref.F(ref.FFilePath, ref.PathBytes("dir")), ref.F(ref.FFileNewPath, ref.PathBytes("other"))}}
+	}, ""},
+	{"batch-rename-onto-existing-account-file", []int{ref.PModifyUser}, func(x c05Ctx) ref.Tx { // "./guest" is another login and the same file name
+		return ref.Tx{Type: ref.TUpdateUser, Fields: []ref.Fld{ref.F(ref.FData, subFields(ref.F(ref.FData, obf("vic")), ref.F(ref.FUserLogin, obf("./guest")), ref.FS(ref.FUserName, "Victim"), ref.F(ref.FUserPassword, []byte{0}), ref.F(ref.FUserAccess, make([]byte, 8))))}}
 	}, ""},
 	{"batch-rename-onto-existing-login", []int{ref.PModifyUser}, func(x c05Ctx) ref.Tx {
 		return ref.Tx{Type: ref.TUpdateUser, Fields: []ref.Fld{ref.F(ref.FData, subFields(ref.F(ref.FData, obf("vic")), ref.F(ref.FUserLogin, obf("guest")), ref.FS(ref.FUserName, "Victim"), ref.F(ref.FUserPassword, []byte{0}), ref.F(ref.FUserAccess, make([]byte, 8))))}}
